@@ -71,6 +71,13 @@ fn pats() -> Vec<Pat> {
             groups: 1,
             inputs: vec![("q", vec![], vec!["q"]), ("a\u{17f}t", vec![vec![Some("\u{17f}t"), Some("t")]], vec!["a", ""]), ("ST.st", vec![vec![Some("ST"), Some("T")], vec![Some("st"), Some("t")]], vec!["", ".", ""])],
         },
+        // an optional group at the end of a counted body, given back while backtracking
+        Pat {
+            text: "(?:.(a)?){2}",
+            flags: "",
+            groups: 1,
+            inputs: vec![("q", vec![], vec!["q"]), ("aa", vec![vec![Some("aa"), None]], vec!["", ""]), ("aaa-", vec![vec![Some("aaa"), Some("a")]], vec!["", "-"])],
+        },
         // groups that the compiler folds away still count (and number) as groups
         Pat {
             text: "(a){0}(b)",
